@@ -41,7 +41,7 @@ Section NoFault.
   (* ---- the constructor calls ---- *)
   Lemma sext_any_dom fuel st nm len : SExt anyobj st (fst (dom_call fuel ct cd st (Some nm) len None None)).
   Proof.
-    apply (sext_dom_call anyobj ct cd (fun _ => True) (fun _ => True)); auto using anyobj_kill; intros; exact I.
+    apply (sext_dom_call anyobj ct cd (fun _ => True) (fun _ => True)); auto using anyobj_kill; unfold HeapLen; intros; exact I.
   Qed.
 
   Lemma op_domain (P : rstate -> Prop) nm len :
@@ -83,7 +83,7 @@ Section NoFault.
       split; [apply callok_dom_complement; exact I1|]. auto.
     - intros st. unfold dom_complement. destruct (hget (heap st) i) as [o|]; [|apply sext_refl].
       destruct (o_data o); try apply sext_refl.
-      apply (sext_dom_call anyobj ct (o_cls o) (fun _ => True) (fun _ => True)); auto using anyobj_kill; intros; exact I.
+      apply (sext_dom_call anyobj ct (o_cls o) (fun _ => True) (fun _ => True)); auto using anyobj_kill; unfold HeapLen; intros; exact I.
   Qed.
 
   Lemma op_strand_by_name (P : rstate -> Prop) nm : Op P (strand_by_name ct G nm) (RetQ cs).
